@@ -137,15 +137,24 @@ def unit(f):
     I(ark, hc, Fn("serialized_size", props=("C11",), ensures=f"r == {n8}"), header_out=f"impl {F}")
     # ---- decimal strings: FromStr accepts exactly the strings of decimal digits (the empty one included) and returns their
     # value modulo p (Horner loop invariant after R33)
+    # the two locals the invariant speaks about are found by what they are initialised with, whatever they are called
+    try:
+        _fs = src(ark).find_fn(f"impl FromStr for {F}", "from_str")[1].text
+    except Exception:
+        _fs = ""
+    _m = re.search(r'let\s+mut\s+(\w+)\s*=\s*Self::zero\(\)', _fs)
+    acc_n = _m.group(1) if _m else "acc"
+    _m = re.search(r'let\s+(\w+)\s*=\s*Self::from\(10u8\)', _fs)
+    ten_n = _m.group(1) if _m else "ten"
     I(ark, f"impl FromStr for {F}", Fn(
         "from_str", props=("C11",), preamble=bu + " proof { assert(s@.take(0) =~= Seq::<char>::empty()); }",
         subst=[("R7", r'\bSelf::Err\b', '()'), ("R2", r'\bark_std::dbg!\([^;]*\);', '')],      # a debug print (stderr) is dropped
         ensures=f"match r {{ Ok(v) => all_digits(s@) && v.val() == dec_val(s@) % {P}, Err(_) => !all_digits(s@) }}",
-        loops={0: f"""invariant cs_@ == s@, i_ <= cs_.len(), ten.val() == 10, forall|j: int| 0 <= j < i_ ==> is_digit(#[trigger] cs_@[j]),
-                        acc.val() == dec_val(cs_@.take(i_ as int)) % {P},
+        loops={0: f"""invariant cs_@ == s@, i_ <= cs_.len(), {ten_n}.val() == 10, forall|j: int| 0 <= j < i_ ==> is_digit(#[trigger] cs_@[j]),
+                        {acc_n}.val() == dec_val(cs_@.take(i_ as int)) % {P},
                     decreases cs_.len() - i_"""},
-        loops_begin={0: f"broadcast use {f}_abs; let ghost acc0_ = acc;"},
-        loops_end={0: f"""lemma_dec_step({P}, cs_@, (i_ - 1) as int, acc0_.val(), mmul({P}, 10, acc0_.val()), (cs_@[(i_ - 1) as int] as int - '0' as int) % {P}, acc.val());"""},
+        loops_begin={0: f"broadcast use {f}_abs; let ghost acc0_ = {acc_n};"},
+        loops_end={0: f"""lemma_dec_step({P}, cs_@, (i_ - 1) as int, acc0_.val(), mmul({P}, 10, acc0_.val()), (cs_@[(i_ - 1) as int] as int - '0' as int) % {P}, {acc_n}.val());"""},
         before_tail="assert(s@.take(s@.len() as int) =~= s@);"), header_out=f"impl {F}")
     # ---- Ord / PartialOrd / Hash of src/fields/<f>/ops.rs: integer ordering, hashing of the canonical bytes (C11)
     opsf = f"src/fields/{f}/ops.rs"
